@@ -26,8 +26,8 @@ func runC19(c *Ctx, pr *PropertyRun) {
 	}
 	pr.Explanation = fmt.Sprintf("Decided: the complete decision table of ValidateCalendarObject, extracted from its SSA by abstract interpretation, for every calendar with up to %d components: atoms are 'METHOD present', and per component every consistent equal/unequal assignment between its name, VTIMEZONE and the other names, between its UID, the empty string and the other UIDs, and whether reading the UID fails. Each row is compared with the statement (accept iff no METHOD, one type besides VTIMEZONE, one non-empty UID; returns that type and UID; on rejection an error and empty results). ", maxChildren) +
 		"The table is exhaustive over this abstract domain (data independence: the function touches names and UIDs only through == and !=, which the interpreter verifies while interpreting). NOT decided: go-ical's parsing of the UID property; calendars with more components than the bound."
-	pr.Assumptions = append(pr.Assumptions, "cal, cal.Component and every child pointer are non-nil (documented use)", "ical.Props.Get / Props.Text are modelled as: presence atom / (opaque string, failure atom)")
-	pr.Trusted = append(pr.Trusted, "golang.org/x/tools/go/ssa v0.29.0", "the interpreter's models of go-ical's two accessor methods")
+	pr.Assumptions = append(pr.Assumptions, "cal, cal.Component and every child pointer are non-nil (documented use)", "ical.Props.Get / Props.Text are interpreted from go-ical's own source (map lookup + length test); (*ical.Prop).Text is modelled as (opaque string, failure atom)")
+	pr.Trusted = append(pr.Trusted, "golang.org/x/tools/go/ssa v0.29.0", "the interpreter's model of (*ical.Prop).Text")
 	r := NewRule("C19", "C19.table", "decision table of ValidateCalendarObject equals the statement for every calendar within the bound (E2 dtx)")
 	r.Exhaustive = true
 	r.Bounds = fmt.Sprintf("children <= %d", maxChildren)
@@ -45,17 +45,13 @@ func runC19(c *Ctx, pr *PropertyRun) {
 	}
 }
 
+// icalModels: go-ical's two accessors Props.Get and Props.Text are interpreted
+// from their own source (a lookup in the property map and a length test);
+// only reading a property's text is modelled: an opaque string or a failure.
 func icalModels(in *Interp, site ssa.CallInstruction, name string, args []Val) (Val, bool) {
 	switch name {
-	case "(" + pkgIcal + ".Props).Get":
-		k := "has(" + keyOf(args[0]) + "," + keyOf(args[1]) + ")"
-		if in.truth(LazyBool{k}) {
-			pt := site.Common().Signature().Results().At(0).Type().(*types.Pointer).Elem()
-			return in.symPointee(pt, "prop("+keyOf(args[0])+","+keyOf(args[1])+")"), true
-		}
-		return kNil, true
-	case "(" + pkgIcal + ".Props).Text":
-		k := keyOf(args[0]) + "." + keyOf(args[1])
+	case "(*" + pkgIcal + ".Prop).Text":
+		k := strings.TrimPrefix(keyOf(args[0]), "&")
 		if in.truth(LazyBool{"fails(" + k + ")"}) {
 			return Tuple{[]Val{kStr(""), in.mkErr(&ErrObj{Kind: "ext", Msg: SymStr{Key: "text-error(" + k + ")"}})}}, true
 		}
@@ -64,19 +60,38 @@ func icalModels(in *Interp, site ssa.CallInstruction, name string, args []Val) (
 	return nil, false
 }
 
+func icalAccessors(fn *ssa.Function) bool {
+	switch fullFnName(fn) {
+	case "(" + pkgIcal + ".Props).Get", "(" + pkgIcal + ".Props).Text", "(" + pkgIcal + ".Props).Values":
+		return true
+	}
+	return false
+}
+
 func c19Spec(c *Ctx, fn *ssa.Function, maxChildren int) DTXSpec {
 	child := func(i int) string { return fmt.Sprintf("cal.Component.Children[%d]", i) }
-	uidKey := func(i int) string { return "text(" + child(i) + ".Props.\"UID\")" }
-	failKey := func(i int) string { return "fails(" + child(i) + ".Props.\"UID\")" }
+	uidList := func(i int) string { return child(i) + ".Props[\"UID\"]" }
+	uidKey := func(i int) string { return "text(" + uidList(i) + "[0])" }
+	failKey := func(i int) string { return "fails(" + uidList(i) + "[0])" }
+	// a property is present when the map has a non-empty list under its name
+	present := func(env *OracleEnv, list string) bool {
+		return env.Bool("has("+list+")") && env.Len(list, 1) > 0
+	}
 	return DTXSpec{
 		Name:  "ValidateCalendarObject",
 		Entry: fn,
 		Sym: SymSpec{
-			MaxLen: func(key string, _ types.Type) int { return maxChildren },
+			MaxLen: func(key string, _ types.Type) int {
+				if strings.Contains(key, ".Props[") {
+					return 1 // a property list: empty or not (only its first entry is ever read)
+				}
+				return maxChildren
+			},
 			NonNil: func(key string) bool { return true },
 		},
 		Setup: func(in *Interp) {
 			in.Models = append(in.Models, icalModels)
+			in.InlineExternal = icalAccessors
 			in.OpenExternal = func(n *types.Named) bool {
 				return n.Obj().Pkg().Path() == pkgIcal && (n.Obj().Name() == "Calendar" || n.Obj().Name() == "Component")
 			}
@@ -104,7 +119,7 @@ func c19Spec(c *Ctx, fn *ssa.Function, maxChildren int) DTXSpec {
 				accepted = true
 			}
 			n := env.Len("cal.Component.Children", maxChildren)
-			method := env.Bool("has(cal.Component.Props,\"METHOD\")")
+			method := present(env, "cal.Component.Props[\"METHOD\"]")
 			wantAccept := !method
 			typ, uid := K(""), K("")
 			for i := 0; i < n && wantAccept; i++ {
@@ -116,6 +131,9 @@ func c19Spec(c *Ctx, fn *ssa.Function, maxChildren int) DTXSpec {
 						wantAccept = false
 						break
 					}
+				}
+				if !present(env, uidList(i)) {
+					continue // no UID on this component
 				}
 				if env.Bool(failKey(i)) {
 					// the statement says nothing about a UID that cannot be
@@ -162,4 +180,3 @@ func c19Spec(c *Ctx, fn *ssa.Function, maxChildren int) DTXSpec {
 	}
 }
 
-var _ = strings.Contains
